@@ -45,6 +45,9 @@ def _run(dump, entry, args, opts):
     if opts.get('budget_s'):
         ctx.deadline = t0 + opts['budget_s']
     I.used = set()
+    if os.environ.get('FIXED'):   # debugging: FIXED='idx#0=1,crc#0=0'
+        import intrinsics as _INTR
+        _INTR.FIXED.update(dict(kv.split('=') for kv in os.environ['FIXED'].split(',')))
     IN._UF_MEMO.clear()
     it = IN.Interp(ctx, I)
     st0 = State()
